@@ -539,7 +539,7 @@ Lemma chk_recip_plain : forall m o, match o with OHandler _ _ | ORet _ _ _ | OBa
 Proof. intros m o H. destruct o; try contradiction; reflexivity. Qed.
 
 Lemma recip_exec_sim : forall s a s' os m,
-  Inv s -> Cpl s m -> RC p s m -> benign fx s a = true -> exec fx p s a = Some (s', os) ->
+  Inv s -> Cpl s m -> RC p s m -> benign fx p s a = true -> exec fx p s a = Some (s', os) ->
   mon_run (chk_recip p) m os = true /\ RC p s' (fold_left mon_upd os m).
 Proof.
   intros s a s' os m I C R B H.
